@@ -25,11 +25,15 @@ class Infra(Exception):
     """infrastructure failure: exit 2, never a violation"""
 
 
+_scratch_lock = __import__("threading").Lock()
+
+
 def scratch():
     global _scratch
-    if _scratch is None:
-        _scratch = tempfile.mkdtemp(prefix="verif-")
-        atexit.register(lambda: shutil.rmtree(_scratch, ignore_errors=True))
+    with _scratch_lock:       # worker threads ask for it at the same time: exactly one directory, removed at exit
+        if _scratch is None:
+            _scratch = tempfile.mkdtemp(prefix="verif-")
+            atexit.register(lambda: shutil.rmtree(_scratch, ignore_errors=True))
     return _scratch
 
 
